@@ -260,23 +260,79 @@ def r4_replacement_validation(ctx) -> None:
         r.ok("C17.R4", f.qual, "[SigmaString(str(v)) for v in values] — configuration order, a single value counts as a list of one", loc)
     else:
         r.violation("C17.R4", f.qual, f"return: {rv}", f"replacements must be SigmaString(str(v)) for every configured value, in order (expected {dict((k, want[k]) for k in rv)})", loc)
+    # the remaining placeholder transformations interpreted (sa.tabulate, Proxy) on stand-in strings
+    class SpecialChars:
+        def __init__(self, n): self.n = n
+    SpecialChars.WILDCARD_MULTI, SpecialChars.WILDCARD_SINGLE = SpecialChars("*"), SpecialChars("?")
+    class Placeholder:
+        def __init__(self, name): self.name = name
+    class SigmaQueryExpression:
+        def __init__(self, *a, **k): self.a, self.k = a, k
+    class SigmaRegularExpression:
+        kind = "regex"
+    class _Val(SigmaString):
+        kind = "string"
+        def __init__(self, parts, handled=True):
+            self.s, self.handled, self.asked, self.cbs = list(parts), handled, [], []
+        def contains_placeholder(self, include=None, exclude=None):
+            self.asked.append((include, exclude))
+            return self.handled and any(isinstance(x_, Placeholder) for x_ in self.s)
+        def replace_placeholders(self, cb):
+            self.cbs.append(cb)
+            return ["EXPANDED", self]
+    class _Rx(SigmaRegularExpression, _Val):
+        pass
+    env2 = dict(env, SpecialChars=SpecialChars, Placeholder=Placeholder, SigmaQueryExpression=SigmaQueryExpression, SigmaRegularExpression=SigmaRegularExpression)
     w = prog.func(PH + ".WildcardPlaceholderTransformation.placeholder_replacements")
-    if unparse(w.node.body[-1]) == "return [SpecialChars.WILDCARD_MULTI]":
+    WQ = PH + ".WildcardPlaceholderTransformation"
+    try:
+        gotw = list(call_method(prog, WQ, "placeholder_replacements", Proxy(prog, WQ, env2, {"include": None, "exclude": None, "_pipeline": None}, interp_kwargs=IK), env2, Placeholder("p"), interp_kwargs=IK))
+    except Raised as ex:
+        gotw = f"raises {ex}"
+    if isinstance(gotw, list) and len(gotw) == 1 and gotw[0] is SpecialChars.WILDCARD_MULTI:
         r.ok("C17.R4", w.qual, "wildcard transformation → [WILDCARD_MULTI]", w.loc)
     else:
-        r.violation("C17.R4", w.qual, unparse(w.node.body[-1]), "wildcard placeholder transformation must replace by exactly one multi-character wildcard", w.loc)
+        r.violation("C17.R4", w.qual, f"placeholder_replacements → {gotw!r}", "wildcard placeholder transformation must replace by exactly one multi-character wildcard", w.loc)
     qe = prog.func(PH + ".QueryExpressionPlaceholderTransformation.apply_string_value")
-    s2 = unparse(qe.node)
-    if "len(val.s) == 1 and isinstance(val.s[0], Placeholder)" in s2 and "raise SigmaValueError" in s2 and "self.is_handled_placeholder(p)" in s2:
-        r.ok("C17.R4", qe.qual, "query expression only for placeholder-only strings; mixed strings → SigmaValueError", qe.loc)
+    QQ = PH + ".QueryExpressionPlaceholderTransformation"
+    outs_q = {}
+    for nm_q, parts_q, handled_q, is_handled in (("placeholder only", [Placeholder("a")], True, True), ("placeholder only, mapped name", [Placeholder("m")], True, True), ("text and placeholder", ["x", Placeholder("a")], True, True),
+                                                 ("two placeholders", [Placeholder("a"), Placeholder("b")], True, True), ("no placeholder", ["x"], True, True), ("placeholder of another item", [Placeholder("a")], False, False),
+                                                 ("placeholder only, not handled by name", [Placeholder("a")], True, False)):
+        meq = Proxy(prog, QQ, env2, {"include": None, "exclude": None, "_pipeline": None, "expression": "EXPR", "mapping": {"m": "mapped"}, "is_handled_placeholder": lambda p_, _h=is_handled: _h}, interp_kwargs=IK)
+        try:
+            oq = call_method(prog, QQ, "apply_string_value", meq, env2, "f", _Val(parts_q, handled_q), interp_kwargs=IK)
+            outs_q[nm_q] = ("query", oq.a) if isinstance(oq, SigmaQueryExpression) else oq
+        except Raised as ex:
+            outs_q[nm_q] = "error" if "SigmaValueError" in str(ex) else f"raises {ex}"
+    want_q = {"placeholder only": ("query", ("EXPR", "a")), "placeholder only, mapped name": ("query", ("EXPR", "mapped")), "text and placeholder": "error", "two placeholders": "error", "no placeholder": None,
+              "placeholder of another item": None, "placeholder only, not handled by name": None}
+    if outs_q == want_q:
+        r.ok("C17.R4", qe.qual, "query expression only for placeholder-only strings; mixed strings → SigmaValueError (interpreted on 7 strings)", qe.loc)
     else:
-        r.violation("C17.R4", qe.qual, "apply_string_value", "query-expression placeholders must be placeholder-only strings, handled per include/exclude, else SigmaValueError", qe.loc)
+        r.violation("C17.R4", qe.qual, f"apply_string_value: { {k_: v_ for k_, v_ in outs_q.items() if want_q[k_] != v_} }", "query-expression placeholders must be placeholder-only strings, handled per include/exclude, else SigmaValueError", qe.loc)
     av = prog.func(PH + ".BasePlaceholderTransformation.apply_value")
-    s3 = unparse(av.node)
-    if "val.contains_placeholder(self.include, self.exclude)" in s3 and "val.replace_placeholders(self.placeholder_replacements_base)" in s3 and "isinstance(val, (SigmaString, SigmaRegularExpression))" in s3:
-        r.ok("C17.R4", av.qual, "strings and regular expressions with a handled placeholder are expanded through the base callback", av.loc)
+    BQ = PH + ".BasePlaceholderTransformation"
+    bad_av = []
+    for val_a, want_kind in ((_Val([Placeholder("a")]), "expanded"), (_Rx([Placeholder("a")]), "expanded"), (_Val(["x"]), None), (_Val([Placeholder("a")], handled=False), None), (5, None), (None, None)):
+        seen_p: list = []
+        mea = Proxy(prog, BQ, env2, {"include": ("inc",), "exclude": ("exc",), "_pipeline": None, "placeholder_replacements_base": lambda p_, _s=seen_p: (_s.append(p_), iter(["R"]))[1]}, interp_kwargs=IK)
+        try:
+            oa = call_method(prog, BQ, "apply_value", mea, env2, "f", val_a, interp_kwargs=IK)
+        except Raised as ex:
+            bad_av.append(f"{getattr(val_a, 'kind', type(val_a).__name__)} value: raises {ex}")
+            continue
+        if want_kind is None:
+            if oa is not None:
+                bad_av.append(f"{getattr(val_a, 'kind', type(val_a).__name__)} value without a placeholder of this item: {oa!r} instead of None")
+        else:
+            cb_ok = len(val_a.cbs) == 1 and (list(val_a.cbs[0]("P")) == ["R"]) and seen_p == ["P"]
+            if oa != ["EXPANDED", val_a] or not cb_ok or val_a.asked[:1] != [(("inc",), ("exc",))]:
+                bad_av.append(f"{val_a.kind} value with a handled placeholder: result {oa!r}, include/exclude asked {val_a.asked[:1]}, callback is the base callback: {cb_ok}")
+    if not bad_av:
+        r.ok("C17.R4", av.qual, "strings and regular expressions with a handled placeholder are expanded through the base callback; anything else is passed on (interpreted)", av.loc)
     else:
-        r.violation("C17.R4", av.qual, "apply_value", "apply_value no longer expands both strings and regular expressions through placeholder_replacements_base", av.loc)
+        r.violation("C17.R4", av.qual, "apply_value", f"apply_value no longer expands both strings and regular expressions through placeholder_replacements_base: {bad_av[0]}", av.loc)
     r.floor("C17.R4", 6)
 
 
